@@ -11,6 +11,16 @@ def groups_stop(ctx):
     belongs to a loaded partition of a dataset of the catalogue - also when a fast replay lets the allocator loop get to
     a new partition only after a later entry added this node to it (ControlPlaneTrace GroupOutlivesPartition)."""
     import c18
+    # design: ReplicaLoad.tla - the apply goroutine against the allocator loop, which reads a partition's replica set only
+    # after the rendezvous; TLC: at most one group, and what runs is what the catalogue says; the shipped loadRaft
+    # (LoadOnce = FALSE) gives the counterexample create(without this node), addSelf, loop - forced below on the real code
+    r = ctx.tlc("ReplicaLoad", "ReplicaLoad_mc.cfg", timeout=300, name="ReplicaLoad")
+    if r.violated:
+        raise vlib.NoVerdict("ReplicaLoad violates %s in the repaired position: specification bug" % r.violated)
+    rg = ctx.tlc("ReplicaLoad", ctx.cfg("ReplicaLoad_mc.cfg", {"LoadOnce": "FALSE"}), timeout=300, name="ReplicaLoad-shipped", count=False)
+    ctx.cov["binding_selftest"]["switch_LoadOnce_FALSE_gives_counterexample"] = bool(rg.violated)
+    if not rg.violated:
+        raise vlib.NoVerdict("vacuity guard failed: a loadRaft that overwrites a loaded group does not violate ReplicaLoad")
     ctrl = ctx.go_build("cmd/ctrl", "ctrl")
     lines = []
     scs = c18.replay_readd() + [{"name": "delete", "steps": ["create:1", "create:1", "settle", "delete", "delete"]}]
